@@ -81,7 +81,36 @@ def EXHAUSTIVE(tier, counters):
     }
 
 
+def at_scale_case(ctx, g, rng):
+    import curies
+
+    api, S = ctx.api, probe.S
+    n = rng.choice([150, 400]) if ctx.tier == "thorough" else 90
+    recs = gen.large_records(rng, n)
+    with probe.monitor_mode():
+        c = api.Converter([gen.mk_record(api, r) for r in recs])
+    some = rng.sample(recs, k=30)
+    m = {}
+    for i, r in enumerate(some):
+        style = i % 5
+        if style == 0:
+            m[r.prefix] = "new" + r.prefix  # plain rename
+        elif style == 1 and r.psyn:
+            m[r.psyn[0]] = "fresh" + str(i)  # rename through a synonym
+        elif style == 2:
+            m["unknown" + str(i)] = "x" + str(i)  # unknown old prefix: skipped
+        elif style == 3:
+            m[r.prefix] = some[(i + 1) % len(some)].prefix  # onto another record's prefix: skipped
+        else:
+            m[r.prefix] = r.psyn[0] if r.psyn else "only" + str(i)  # onto its own synonym
+    call(curies.remap_curie_prefixes, c, m)
+    S.counters[f"wl:at-scale:n{n}"] += 1
+    probe.note_key(f"at-scale:n{n}", True)
+
+
 def run_case(ctx, g, rng):
+    if g % 200 == 200 - 1:
+        return at_scale_case(ctx, g, rng)
     import curies
 
     api, S = ctx.api, probe.S
